@@ -830,6 +830,9 @@ CONTINUATION_TABLE = [
     ("'&' // y", False, "'&' // y", False),
     ("'&' // &", False, "'&' // ", True),
     ("a&b", False, "a&b", False),
+    ("      && roll'", False, "& roll'", False),
+    ("   &  &b\"", False, "  &b\"", False),
+    ("   & c = 3", False, " c = 3", False),
 ]
 
 
@@ -852,18 +855,22 @@ def rule_continuation(m, rid):
     if tail is None:
         r.error("get_source_item: the '&' handling at the end of the free-form continuation loop was not found (anchor changed)")
         return r
-    ev = PE.Evaluator({})
+    ev = PE.Evaluator({"extract_label": lambda l_: (None, l_), "extract_construct_name": lambda l_: (None, l_)})
     bad = []
     try:
         for text, first, want_text, want_cont in CONTINUATION_TABLE:
             r.instances += 1
             lines = [] if first else ["x = 1 + "]
             n0 = len(lines)
+            # one whole iteration of the free-form loop on one physical line (comment handling is the identity on these lines)
+            me = PE.Obj({"linecount": 7, "f2py_comment_lines": [], "comment_item": lambda *a, **k: ("comment",) + a})
             env = {"line": text, "lines": lines, "lines_append": lines.append, "get_single_line": lambda: "<next>",
-                   "self": PE.Obj({"linecount": 7}), "endlineno": 0, "startlineno": 0}
+                   "self": me, "endlineno": 0, "startlineno": 0, "had_omp_sentinels": False, "start_index": 0, "qchar": None,
+                   "handle_inline_comment": lambda l_, n_, q_=None: (l_, q_, False), "put_item": lambda x: None,
+                   "have_comment": False, "label": None, "name": None, "is_f2py_directive": False}
             cont = None
             try:
-                ev.block(tail, env)
+                ev.block(loop.body, env)
                 cont = env.get("line") == "<next>"
             except PE._Break:
                 cont = False
